@@ -234,7 +234,7 @@ Section ALP.
     exists w', c11_al_step T d N true w o = C11_ok w' /\ c11_al_R w' ws'.
   Proof.
     intros [s h] [l hs] o ws' [Hinv Hh] Hs. simpl in Hinv, Hh.
-    destruct o as [v | k | | | i v | k]; cbn [c11_als_step] in Hs.
+    destruct o as [v | k | | | i v | k |]; cbn [c11_als_step] in Hs.
     - (* push_back: held iterators stay valid *)
       injection Hs as <-. destruct (c11_al_push_back_ok s l v Hinv) as (s' & Hp & Hinv' & Hst).
       simpl. rewrite Hp. simpl. eexists; split; [reflexivity |]. split; simpl; auto.
@@ -257,6 +257,7 @@ Section ALP.
       destruct h, hs; auto. destruct Hh as [-> Hj]. rewrite Hst. split; auto. rewrite c11_set_nth_length; auto.
     - destruct (k <? length l) eqn:Ek; [| discriminate]. apply Nat.ltb_lt in Ek. injection Hs as <-.
       simpl. eexists; split; [reflexivity |]. split; simpl; auto.
+    - injection Hs as <-. simpl. eexists; split; [reflexivity |]. split; simpl; auto.
   Qed.
 
   Lemma c11_al_observe_sim : forall w ws, c11_al_R w ws -> c11_al_observe T N w = C11_ok (c11_als_observe T ws).
@@ -360,7 +361,7 @@ Section ALP.
     intros w ws o ws' [HR Hb] Hs. destruct (c11_al_step_sim w ws o ws' HR Hs) as (w' & Hstep & HR').
     exists w'. split; auto. split; auto.
     destruct w as [s h], ws as [l hs]. destruct HR as [Hinv _]. cbn [fst snd] in *.
-    destruct o as [v | k | | | i v | k]; cbn [c11_als_step c11_al_step] in *.
+    destruct o as [v | k | | | i v | k |]; cbn [c11_als_step c11_al_step] in *.
     - destruct (c11_al_push_back T d N s v) as [s' | |] eqn:E; try discriminate. simpl in Hstep. injection Hstep as <-.
       eapply c11_al_below_push; eauto.
     - destruct (k <? length l) eqn:Ek; [| discriminate]. apply Nat.ltb_lt in Ek.
@@ -372,6 +373,7 @@ Section ALP.
       simpl in Hstep. injection Hstep as <-. apply c11_al_assignAt_chunks in E. destruct E as [Est Ech].
       intros j Hj. cbn [fst] in *. rewrite Est in Hj. rewrite Ech. apply Hb; auto.
       assert (al_start s / cs <= (al_start s + i) / cs) by (apply Nat.div_le_mono; auto; lia). lia.
+    - injection Hstep as <-. exact Hb.
     - injection Hstep as <-. exact Hb.
   Qed.
 
@@ -412,7 +414,7 @@ Section ALP.
     (Z.of_nat (al_start s + al_size s) < 2 ^ 64)%Z -> i <= al_size s -> Z.of_nat j = (Z.of_nat i + n)%Z -> nth_error l j = Some x ->
     c11_ali_index T N s (al_start s + i) n = C11_ok x.
   Proof.
-    intros (Hcap & Hle & Hsz & Hal & Hel) Hb Hi Hj Hx. unfold c11_ali_index.
+    intros (Hcap & Hle & Hsz & Hal & Hel) Hb Hi Hj Hx. unfold c11_ali_index. change c11_size_t_mod with (2 ^ 64)%Z.
     assert (Hjl : j < length l) by (apply nth_error_Some; congruence).
     rewrite Z.add_mod_idemp_l by lia.
     replace (n + Z.of_nat (al_start s + i))%Z with (Z.of_nat (al_start s + j)) by lia.
